@@ -216,6 +216,14 @@ def _probe_class(R, cls, kind, what, w):
         R.stats.inc("ctor_from_dict_checks")
         if not (np.array_equal(a.data, c.data) and np.array_equal(b.data, c.data)):
             R.add([K.V("ctor:from_dict", f"{what}.from_dict differs from keyword construction", **w)])
+        # unknown names are refused through a mapping as they are through keywords
+        for bad in bads[:6]:
+            for key in (bad, sympy.Symbol(bad)):
+                try:
+                    cls.from_dict({**vals, key: 1.0})
+                    R.add([K.V("ctor:unknown-name-accepted", f"{what}.from_dict accepted the unknown name {bad!r} ({type(key).__name__} key)", **w)])
+                except Exception:  # noqa: BLE001
+                    R.stats.inc("ctor_from_dict_unknown_names_refused")
 
 
 def _ctor(R, rng, ctx):
